@@ -19,6 +19,12 @@ if avoid and '--fresh' not in sys.argv:
     AVOID = ("\nOther people already seeded the following changes for this property; do NOT repeat them or close variants of "
              "them - look for different functions, different clauses of the property and different triggering conditions:\n"
              + "\n".join(f"  - {a}" for a in avoid) + "\n")
+HINT = ""
+if '--hint' in sys.argv:
+    HINT = ("\nThis time, prefer places the earlier changes did not touch: rarely used public entry points and optional "
+            "parameters, interactions between two features or configuration options, objects reused or shared across "
+            "several runs / clients / accounts, state that survives an error, behaviour at exact boundaries (equal "
+            "timestamps, zero amounts, empty collections), and code paths only reached after a specific history of calls.\n")
 print(f"""You are testing a verification effort by seeding realistic bugs. You work ONLY inside the git worktree {wt}
 (a checkout of the Python project gbeced/basana: an async event-driven algorithmic trading framework with a
 backtesting exchange simulator, an event dispatcher and Binance/Bitstamp clients). Do NOT read or write anything
@@ -42,7 +48,7 @@ aioresponses, which is incompatible with the installed aiohttp). A change is acc
 unchanged: run the suite WITHOUT -x before and after (`... -m pytest -q -p no:cacheprovider tests 2>&1 | tail -3`) and
 compare the pass/fail counts (226 passed, 69 failed) - better, compare the list of failing test ids.
 
-{AVOID}
+{AVOID}{HINT}
 Make the changes realistic - the kind of slip a maintainer could make in a refactoring or an "optimisation" - and SUBTLE:
 prefer changes that need something specific to manifest (a particular interleaving, a fault at a particular point, a
 multi-step sequence of operations, an unusual input or configuration, or two cooperating sites that each look fine
